@@ -7,36 +7,29 @@ import Babylon.GC.LiveColl
 namespace Babylon.GC
 open Babylon.Core Babylon.Gen.GC
 
-theorem marker_cell_in_allItems {c : Cfg} {s : State} (hq : QInv c s) {k : Nat} (hk : s.stop = .publish k) :
-    s.popIdx ≤ k ∧ s.allItems[k]? = some Item.marker := by
-  have ⟨h1, h2⟩ := hq.spub k hk
-  refine ⟨h1, ?_⟩
-  simp only [State.allItems]
-  rw [List.getElem?_append_right (by rw [hq.popLen]; exact h1), hq.popLen, List.getElem?_map, h2]
-  rfl
-
 /-- the collector cannot have finished while the marker is still unpublished -/
 theorem done_not_publishing {c : Cfg} {s : State} (h : Reach c s) (hd : s.cpc = .done) (k : Nat) :
     s.stop ≠ .publish k := by
   intro hk
   have hi := reach_inv h
-  have hm := reach_minv h
   have hrun := (hi.k.fin hd).1
-  have hmark : Item.marker ∈ s.popped := by
+  have hmark : Item.marker ∈ s.popped.drop s.runBase := by
     apply Classical.byContradiction
     intro hn
     have := hi.k.run.mpr hn
     rw [hrun] at this; cases this
   obtain ⟨i, hi1⟩ := List.getElem?_of_mem hmark
-  have hil : i < s.popped.length := by
-    rcases Nat.lt_or_ge i s.popped.length with h | h
+  rw [List.getElem?_drop] at hi1
+  have hil : s.runBase + i < s.popped.length := by
+    rcases Nat.lt_or_ge (s.runBase + i) s.popped.length with h | h
     · exact h
     · rw [List.getElem?_eq_none h] at hi1; cases hi1
-  have hi2 : s.allItems[i]? = some Item.marker := by
+  have hi2 : s.allItems[s.runBase + i]? = some Item.marker := by
     simp only [State.allItems]; rw [List.getElem?_append_left hil]; exact hi1
   have ⟨hk1, hk2⟩ := marker_cell_in_allItems hi.q hk
-  have := hm.oneMark i k hi2 hk2
-  have := hi.q.popLen
+  have hb := hi.k.base
+  have hpl := hi.q.popLen
+  have := hi.st.oneRun (s.runBase + i) k (Nat.le_add_right _ _) (by omega) hi2 hk2
   omega
 
 /-- from any moment after `n0` at which `stop()` has not returned, the measure eventually decreases -/
@@ -57,16 +50,27 @@ theorem decrease {c : Cfg} (x : Exec c) (n0 : Nat) (hf : Fair x n0) :
   -- the marker has no ticket yet
   by_cases hres : (x.σ n).stop = .reserve
   · exact scen_reserve x n0 hf n hn hres
+  -- a stop() is in progress, so the collector thread exists; it has not finished
+  have hact : collActive (x.σ n).cpc = true := by
+    have hoff : (x.σ n).cpc ≠ .off := by
+      apply hi.st.offStop
+      cases hst : (x.σ n).stop with
+      | idle => exact absurd hst g.called
+      | reserve => exact Or.inl rfl
+      | publish k => exact Or.inr (Or.inl ⟨k, rfl⟩)
+      | join => exact Or.inr (Or.inr rfl)
+      | returned => exact absurd hst hnr
+    cases hc : (x.σ n).cpc <;> first | rfl | exact absurd hc hd | exact absurd hc hoff
   -- consumed tasks are waiting
   by_cases hw : 0 < waiting (x.σ n)
-  · exact scen_reclaim x n0 hf n hn ⟨hw, hd⟩
+  · exact scen_reclaim x n0 hf n hn ⟨hw, hact⟩
   have hw0 : waiting (x.σ n) = 0 := by omega
   -- marker seen, nothing left
   cases hrun : (x.σ n).running with
-  | false => exact scen_exit x n0 hf n hn ⟨hw0, hrun, hd⟩
+  | false => exact scen_exit x n0 hf n hn ⟨hw0, hrun, hact⟩
   | true =>
     -- the marker is still in the queue, so the queue is not empty
-    have hnp : Item.marker ∉ (x.σ n).popped := hi.k.run.mp hrun
+    have hnp : Item.marker ∉ (x.σ n).popped.drop (x.σ n).runBase := hi.k.run.mp hrun
     have hne : (x.σ n).cells ≠ [] := by
       intro hnil
       cases hst : (x.σ n).stop with
@@ -76,9 +80,14 @@ theorem decrease {c : Cfg} (x : Exec c) (n0 : Nat) (hf : Fair x n0) :
         have := (hi.q.spub k hst).2
         rw [hnil] at this; simp at this
       | join =>
-        have := hm.markIn (Or.inl hst)
-        simp only [State.allItems, hnil, List.map_nil, List.append_nil] at this
-        exact hnp this
+        obtain ⟨k, hk1, hk2⟩ := hi.st.joinMark hst
+        simp only [State.allItems, hnil, List.map_nil, List.append_nil] at hk2
+        apply hnp
+        have hb := hi.k.base
+        have : (x.σ n).popped[k]? = ((x.σ n).popped.drop (x.σ n).runBase)[k - (x.σ n).runBase]? := by
+          rw [List.getElem?_drop]; congr 1; omega
+        rw [this] at hk2
+        exact List.mem_of_getElem? hk2
       | returned => exact absurd hst hnr
     cases hcells : (x.σ n).cells with
     | nil => exact absurd hcells hne
@@ -86,7 +95,7 @@ theorem decrease {c : Cfg} (x : Exec c) (n0 : Nat) (hf : Fair x n0) :
       obtain ⟨it, b⟩ := hd0
       cases b with
       | true =>
-        exact scen_consume x n0 hf n hn ⟨hw0, hrun, ⟨it, by rw [hcells]; rfl⟩, hd⟩
+        exact scen_consume x n0 hf n hn ⟨hw0, hrun, ⟨it, by rw [hcells]; rfl⟩, hact⟩
       | false =>
         have h0 : (x.σ n).cells[0]? = some (it, false) := by rw [hcells]; rfl
         cases it with
